@@ -87,6 +87,9 @@ func (w *World) extraEnabled() []core.WCmd {
 			if in.state == stRunning && w.instParked(in) == 0 && r.Chance(1, 3) {
 				add(p.CacheW, core.Cmd{A: "cache-snapshot", I: in.idx})
 			}
+			if in.state == stRunning && w.instParked(in) == 0 && len(w.submitted) > 0 && !p.HTTP {
+				add(p.CacheW, core.Cmd{A: "cache-readfault", I: in.idx, N: int64(w.submitted[r.Intn(len(w.submitted))])})
+			}
 		}
 	}
 	if p.TamperW > 0 && w.tamperCount < 6 {
@@ -211,6 +214,39 @@ func (w *World) extraExec(c core.Cmd) bool {
 					in.recomputed[k] = append(in.recomputed[k], [2]int64{i, e.Timestamp})
 				}
 			}
+		}
+		return true
+	case "cache-readfault":
+		// the cache cannot be read for a moment (the table is renamed away from
+		// another connection and back): a submission in that window fails; it is
+		// never treated as "not in the cache"
+		in := w.inst(c.I)
+		if in == nil || in.state != stRunning || in.log == nil || w.instParked(in) != 0 || int(c.N) >= len(w.items) || c.N < 0 {
+			return false
+		}
+		conn, err := sqlite.OpenConn(in.cache, 0)
+		if err != nil {
+			return false
+		}
+		defer conn.Close()
+		if err := sqlitex.ExecTransient(conn, "ALTER TABLE cache256 RENAME TO cache256_away", nil); err != nil {
+			return false
+		}
+		s := w.doSubmit(in, w.items[c.N], false, core.Cmd{})
+		for i := 0; i < 8 && !s.Done; i++ {
+			for _, op := range w.sim.Parked() {
+				if op.Inst == in.idx && op.Inc == in.inc && op.Kind == "cache" {
+					w.sim.Release(op, core.OutOK)
+				}
+			}
+			synctest.Wait()
+		}
+		if err := sqlitex.ExecTransient(conn, "ALTER TABLE cache256_away RENAME TO cache256", nil); err != nil {
+			panic("cache-readfault: cannot restore the table: " + err.Error())
+		}
+		w.sim.Probe("fault.cache.readfault")
+		if s.Done && s.Err != nil {
+			w.sim.Probe("cache.readfault.refused")
 		}
 		return true
 	case "cache-snapshot":
